@@ -87,7 +87,7 @@ for l in r.stdout.splitlines():
         k, v = l.split(' => ', 1); rust[k] = v
 
 def norm(s):
-    s = s.replace('%Z', ''); s = re.sub(r'[(),]', ' ', s); s = re.sub(r'\btt\b', '', s); s = re.sub(r'- (\d)', r'-\1', s)
+    s = s.replace('%Z', ''); s = re.sub(r'[(),;\[\]]', ' ', s); s = re.sub(r'\btt\b', '', s); s = re.sub(r'- (\d)', r'-\1', s)
     return ' '.join(s.split())
 
 for name, src, cfg, cs in run:
